@@ -53,6 +53,14 @@ func (w *World) atom(c ssa.Value) Atom {
 				x, y = y, x
 			}
 			if k, ok := constInt(y); ok && isIntegerType(x.Type()) {
+				if k == -1 && w.isIndexResult(x) {
+					// strings.Index*(..) == -1 is < 0: one atom for the spellings == -1, < 0, <= -1 (and != -1, >= 0, > -1)
+					return Atom{Key: fmt.Sprintf("lt(%s,%d)", w.termKey(x), 0), Neg: neg != n, Kind: "ltk", X: strip(x), K: 0}
+				}
+				if _, isLen := lenOf(x); isLen && k == 0 {
+					// len(x) == 0 is len(x) < 1: one atom for the spellings == 0, <= 0, < 1 (and != 0, > 0, >= 1)
+					return Atom{Key: fmt.Sprintf("lt(%s,%d)", w.termKey(x), 1), Neg: neg != n, Kind: "ltk", X: strip(x), K: 1}
+				}
 				return Atom{Key: fmt.Sprintf("eqk(%s,%d)", w.termKey(x), k), Neg: neg != n, Kind: "eqk", X: strip(x), K: k}
 			}
 			kx, ky := w.termKey(x), w.termKey(y)
@@ -515,4 +523,17 @@ func errNil(c ssa.CallInstruction) func(Atom) bool {
 		}
 		return isResultOf(a.X, c, i)
 	}
+}
+
+var indexFamily = map[string]bool{
+	"strings.Index": true, "strings.IndexByte": true, "strings.IndexRune": true, "strings.IndexAny": true,
+	"strings.LastIndex": true, "strings.LastIndexByte": true, "strings.LastIndexAny": true,
+	"bytes.Index": true, "bytes.IndexByte": true, "bytes.IndexRune": true, "bytes.IndexAny": true,
+	"bytes.LastIndex": true, "bytes.LastIndexByte": true,
+}
+
+// isIndexResult: v is the result of a strings/bytes Index* call (>= -1 by contract).
+func (w *World) isIndexResult(v ssa.Value) bool {
+	c, ok := strip(v).(*ssa.Call)
+	return ok && indexFamily[w.calleeName(c)]
 }
